@@ -435,6 +435,22 @@ def r3_raise_before_store(R) -> None:
                     f"`{text(a)[:60]}` stores the new series under {key_} without checking that the entry is free: add_variable('attributes', 1) replaces the container's list of "
                     f"attribute names (`_attributes`) with an array, add_variable('strict', 0) its strict flag - every later attribute assignment then fails, and strict mode is lost",
                     where=av_.where(n))
+    # ... and the other way round: an attribute is kept in the same namespace under its own name, so add_attribute() (which
+    # `obj.<new name> = x` ends in when strict is off) must not take a name that is a key of that namespace already - `_X` is
+    # where the variable X keeps its array
+    aa = Fn(R, f'{VC}.add_attribute')
+    sets = aa.nodes_with(lambda x: (isinstance(x, ast.Call) and isinstance(x.func, ast.Attribute) and x.func.attr == '__setattr__' and len(x.args) == 2)
+                         or (is_call(x, 'setattr', 'object.__setattr__') and len(x.args) == 3))
+    stores_ = [n for n in aa.cfg.nodes if n.kind == 'stmt' and isinstance(n.ast, ast.Assign) and len(n.ast.targets) == 1 and dict_slot(n.ast.targets[0]) is not None
+               and dict_slot(n.ast.targets[0])[0] == 'self']
+    if R.require(aa.q, len(sets) + len(stores_), 'the store of the new attribute', fi=aa.fi, pred=lambda x: isinstance(x, ast.Call) and isinstance(x.func, ast.Attribute) and x.func.attr == '__setattr__'):
+        pname = (aa.fi.params() + ['self', 'name'])[1]
+        for n in sets + stores_:
+            free = aa.holds(n.id, f'{pname} in self.__dict__', False) or aa.holds(n.id, f'{pname} not in self.__dict__') or aa.holds(n.id, f'hasattr(self, {pname})', False)
+            R.check(free, aa.q, 'add-attribute-slot-free', 'add_attribute only takes a name that is not a key of the object namespace already',
+                    f"`{text(n.ast)[:60]}` stores the new attribute without checking that its name is free in `__dict__`: with strict off, `obj._X = 5` (or add_attribute('_X', 5)) "
+                    f"replaces the array of the variable X, which is kept under '_X', by the number 5 - X is no longer a series and `values` no longer variables by periods",
+                    where=aa.where(n))
     # ModelInterface.add_variable: names extended only after the base call succeeded
     g = Fn(R, f'{MI}.add_variable')
     base = g.nodes_with(lambda x: is_super_call(x, 'add_variable'))
